@@ -13,8 +13,12 @@ TABLE = {
 }
 
 
+FAILED = []      # translators that could not read the code as it is now: (key, message); their generated file is left as it was
+
+
 def regenerate(which=None):
     changed = []
+    del FAILED[:]
     for key, (modname, fname) in TABLE.items():
         if which is not None and key not in which:
             continue
@@ -22,7 +26,12 @@ def regenerate(which=None):
         try:
             text = mod.emit()
         except Exception as exc:  # pylint: disable=broad-except
-            raise core.Infra(f"translator {key} failed: {type(exc).__name__}: {exc}") from exc
+            # the code no longer has the shape the translator reads: the tie is broken, which is a finding about the code under
+            # check (reported as a broken obligation; the rest of the check looks for a failing input), not a fault of the machinery
+            if not os.path.exists(os.path.join(core.GEN, fname)):
+                raise core.Infra(f"translator {key} failed and no earlier table exists: {type(exc).__name__}: {exc}") from exc
+            FAILED.append((key, f"{type(exc).__name__}: {exc}"[:300]))
+            continue
         if isinstance(text, tuple):
             text = text[0]
         if core.write_if_changed(os.path.join(core.GEN, fname), text):
